@@ -100,7 +100,7 @@ def return_term(outs):
         return None
     t = rets[-1].value
     for o in reversed(rets[:-1]):
-        t = T.phi(o.cond, o.value, t)
+        t = merge_phi(o.cond, o.value, t)      # kind-preserving (a phi of two Angles is an Angle)
     return t
 
 
@@ -1143,7 +1143,10 @@ def inline_repo(ctx, tgt, fn, args, kws, star_kw, env):
             cenv[n] = ev(sub, d, {})
     pos = list(args)
     is_static = any(isinstance(d, ast.Name) and d.id in ("staticmethod", "classmethod") for d in fn.decorator_list)
-    if cls and not is_static and names and names[0] == "self" and (not pos or len(pos) < len([n for n in names if n not in kws])):
+    if is_static and pos and pos[0] == T.sym("self") and (not names or names[0] != "self"):
+        pos = pos[1:]                 # static method called through the instance
+    elif cls and not is_static and names and names[0] == "self" and (not pos or pos[0] != T.sym("self")) \
+            and len(pos) < len([n for n in names if n not in kws]):
         pos = [T.sym("self")] + pos
     for n, v in zip(names, pos):
         cenv[n] = v
